@@ -25,7 +25,7 @@ def slice_from (n : Nat) (src : List Nat) : Option (List Nat) :=
   if src.length < n then none else some (src.drop n)
 
 /-- `src[i]` (panics when out of range). -/
-def index (src : List Nat) (i : Nat) : Option Nat := src[i]?
+def byte_at (src : List Nat) (i : Nat) : Option Nat := src[i]?
 
 /-- `opt.map_or(0, NonZeroU32::get)`. -/
 def map_or_0_get : Option Nat → Nat
@@ -37,6 +37,9 @@ def NonZeroU32_new (x : Nat) : Option Nat := if x = 0 then none else some x
 
 /-- `u32::try_from(n: usize).unwrap()` (`none` = the unwrap panics). -/
 def u32_try_from_usize (n : Nat) : Option Nat := if n ≤ 4294967295 then some n else none
+
+/-- `u8::try_from(x: u32).unwrap()` (`none` = the unwrap panics). -/
+def u8_try_from (x : Nat) : Option Nat := if x ≤ 255 then some x else none
 
 /-- `u8::from(kind)`: a match kind is identified with its byte throughout the model. -/
 def kind_to_u8 (k : Nat) : Nat := k
